@@ -1,6 +1,6 @@
 (* C14 — a clone is an equal and fully independent cache (abstract part; the shared-heap frame
    statement is Layer B, B/FrameB.v). *)
-Require Import LruV.T.TableA LruV.A.InvA LruV.B.FrameB LruV.B.StepB LruV.B.RefineLemmas LruV.B.CloneB.
+Require Import LruV.T.TableA LruV.A.InvA LruV.B.FrameB LruV.B.StepB LruV.B.RefineLemmas LruV.B.CloneB LruV.B.TotalB.
 
 Definition same_modulo_tokens (a b : entry) : Prop :=
   kid (ek a) = kid (ek b) /\ kheap (ek a) = kheap (ek b) /\ vtag (ev a) = vtag (ev b) /\ vheap (ev a) = vheap (ev b) /\ es a = es b.
@@ -73,6 +73,15 @@ Theorem C14_pointer_level : forall E b seal_c addrs ren bc evs, RIg (bg b) -> bB
   (forall x, In x (gseal (bg b) :: glist (bg b)) -> ~ In x (gseal (bg bc) :: glist (bg bc))).
 Proof. exact clone_refines. Qed.
 
+(* ... and the walk never faults: given a seal address that is not in use and enough pairwise distinct bucket addresses
+   outside both structures, clone() at pointer level returns a result whenever the abstract clone does *)
+Theorem C14_clone_no_fault : forall E b seal_c addrs ren r, RIg (bg b) -> do_clone E (absB b) ren = Some r ->
+  gh (bg b) seal_c = None -> ~ In seal_c (gseal (bg b) :: glist (bg b)) ->
+  NoDup addrs -> (length (glist (bg b)) <= length addrs)%nat ->
+  (forall a, In a addrs -> a <> seal_c /\ ~ In a (gseal (bg b) :: glist (bg b))) ->
+  exists r', bB_clone E b seal_c addrs ren = Some r'.
+Proof. exact clone_total. Qed.
+
 Print Assumptions C14_equal.
 Print Assumptions C14_fresh.
 Print Assumptions C14_inv.
@@ -81,3 +90,4 @@ Print Assumptions C14_footprint_remove.
 Print Assumptions C14_footprint_insert.
 Print Assumptions C14_independent.
 Print Assumptions C14_pointer_level.
+Print Assumptions C14_clone_no_fault.
